@@ -17,6 +17,11 @@ FILES = c06.FILES
 ASSUMPTIONS = c06.ASSUMPTIONS
 
 
+def run_impl(cases):
+    from lib import core
+    return core.run_impl_split("C05", cases)
+
+
 def gen_cases(tier, seed):
     rng = gen.rng_for(seed, "C05")
     full = 6 if tier == "quick" else 8
@@ -31,6 +36,12 @@ def gen_cases(tier, seed):
     for _ in range(nrand):
         t = gen.random_tree(rng, rng.randint(full + 1, maxr))
         cases.append(c06.mk(t, embed=rng.random() < 0.3))
+    # deep trees (a chain and a comb of 700 levels): iteration must not depend on the recursion depth
+    for deep in (gen.chain(700), gen.comb(700)):
+        c = c06.mk(deep, embed=False)
+        c["reclimit_default"] = True      # under the interpreter's default recursion limit
+        c["adv"] = None
+        cases.append(c)
     gen.sprinkle_adv(cases)
     dist = {"exhaustive_cases": nexh, "random_cases": nrand, "by_tree_size": {}}
     for c in cases:
